@@ -1,12 +1,30 @@
 /-
 Driver commands of property C09 (core Lean only).  Command names start with "c09.".
+The writer part of C09 uses the `c12.trace` / `c12.traceu` commands of Hts.Drv.C12 (same LTS, with a fault oracle).
+
+  c09.read <members> <err|eof> <cut|->
+      members: comma separated  <compressed size>:<payload size>
+      sequential read of the whole file through a source that fails from byte offset <cut> on:
+      `n=<payload bytes delivered> end=<eof|err>`
 -/
 import Hts.Drv.Util
+import Hts.Model.ReaderFaults
 namespace Hts.Drv.C09
-open Hts.Drv
+open Hts.Drv Hts.Model.ReaderFaults
+
+def parseMember (s : String) : Option (Nat × Nat) :=
+  match s.splitOn ":" with
+  | [c, n] => do some (← parseNat c, ← parseNat n)
+  | _ => none
 
 def handle (cmd : String) (args : List String) : Option String :=
   match cmd, args with
+  | "c09.read", [ms, kind, cut] => do
+    let ms ← if ms == "-" then some [] else (ms.splitOn ",").mapM parseMember
+    let kind ← if kind == "err" then some FaultKind.err else if kind == "eof" then some FaultKind.eof else none
+    let cut ← if cut == "-" then some none else (parseNat cut).map some
+    let r := readAllLen cut kind 0 ms
+    some s!"n={r.1} end={if r.2 == End.eof then "eof" else "err"}"
   | _, _ => none
 
 end Hts.Drv.C09
